@@ -180,7 +180,27 @@ JUNK = ['', ' ', 'DNF', 'DNS', 'DQ', 'NT', 'x', '-', '--', '1e3', '1E2', 'inf', 
         '0:0', '0.0', '0:00:00', '59.999', '1:59.999', '59:59.999', '99', '100', '99.99', '1:60', '60:00', '1:00:60']
 
 
+def extreme_text(draw):
+    """The far ends of the domain: tiny positive values, all-zero prefixes, very long fields."""
+    k = draw(6)
+    d = 1 + draw(9)
+    prefix = ['', '0:', '00:', '0:0:', '00:00:', '0:00:'][draw(6)]
+    if k == 0:
+        return prefix + '0.00%d' % d
+    if k == 1:
+        return prefix + '0,00%d' % d
+    if k == 2:
+        return prefix + '0.0%d' % d
+    if k == 3:
+        return prefix + '0.000%d' % d
+    if k == 4:
+        return prefix + '00.00%d' % d
+    return ''.join(str(draw(10)) for _ in range(7 + draw(6))) + ('.%d' % d if draw(2) else '')
+
+
 def grammar_text(draw):
+    if draw(12) == 0:
+        return extreme_text(draw)
     if draw(10) == 0:
         return JUNK[draw(len(JUNK))]
     n = [1, 1, 1, 2, 2, 2, 2, 3, 3, 4][draw(10)]
